@@ -25,7 +25,7 @@ ENUM_EXTRA = ['get', 'post', 'POST', 'put', 'off', 'On', 'anonymous', 'USE-CREDE
 ASSIGN_PY = [0, 1, 5, -1, -4, 1000, 1001, 65534, 65535, 10 ** 20, True, False, None]
 
 
-def corpus(tag, prop, tier):
+def corpus(tag, prop, tier, origin='tag'):
     k = S.rule(tag, prop)[0] if prop in props_of(tag) else 'unlinked'
     vals = list(BASE)
     if k in S.NUMERIC_KINDS:
@@ -50,7 +50,7 @@ def pairs(tier):
     for tag in common_on:
         for p in S.COMMON_PROPS:
             if p not in S.TAG_PROPS.get(tag, ()):
-                out.append((tag, p, 'common'))
+                out.append((tag, p, 'common' if tag == UNTABLED else 'common2'))
     # names that are *not* linked (controls: lower-case spellings, names of other element types)
     for tag, p in (('td', 'colspan'), ('td', 'rowspan'), ('input', 'maxlength'), ('div', 'href'), (UNTABLED, 'checked'),
                    ('form', 'novalidate'), ('a', 'colSpan'), ('meta', 'httpequiv'), ('submit', 'o'), ('input', 'onsubmit')):
@@ -92,7 +92,7 @@ class Check(PropCheck):
     def cases(self, tier, rng):
         for tag, prop, origin in pairs(tier):
             attr = S.html_name(prop)
-            vals = corpus(tag, prop, tier)
+            vals = corpus(tag, prop, tier, origin)
             base = {'tag': tag, 'prop': prop, 'attr': attr, 'ctx': 0, 'via': 'ctor', 'init': ['absent'], 'assign': None}
 
             def mk(**kw):
@@ -147,14 +147,24 @@ class Check(PropCheck):
             yield dict(d, assign=['s', s[1:]])
 
     # ---- model side ----------------------------------------------------------------------------
+    @staticmethod
+    def text(s):
+        """A text on the wire; long repetitive texts as (cat (rep unit n) rest)."""
+        if len(s) > 200:
+            for u in (1, 2, 3, 4):
+                k = len(s) // u
+                if s.startswith(s[:u] * k):
+                    return ['cat', ['rep', enc(s[:u]), k], enc(s[u * k:])]
+        return enc(s)
+
     def encode(self, d, mode='cell'):
         init = d['init']
-        i = 'absent' if init[0] == 'absent' else ['bare'] if init[0] == 'bare' else ['text', enc(init[1])]
+        i = 'absent' if init[0] == 'absent' else ['bare'] if init[0] == 'bare' else ['text', self.text(init[1])]
         a = d['assign']
         if a is None:
             asg = 'no'
         elif a[0] == 's':
-            asg = ['s', enc(a[1])]
+            asg = ['s', self.text(a[1])]
         elif a[0] == 'i':
             asg = ['i', str(a[1])]
         elif a[0] == 'b':
@@ -307,12 +317,62 @@ class Check(PropCheck):
             return got is None
         return type(got) is type(want) and got == want
 
+    # ---- the Python restatement of the rules, rendered like the driver's `spec` mode ----------------------
+    def spec_render(self, d):
+        tag, prop = d['tag'], d['prop']
+        init = d['init']
+        if init[0] == 'bare':
+            return 'bare'
+        state = S.ABSENT if init[0] == 'absent' else ('text', init[1])
+        setout = 'skip'
+        if d['assign'] is not None:
+            want = S.expected_assign(tag, prop, py_value(d['assign']))
+            if want[0] == 'raise':
+                setout = ['raise', 'IndexSizeErrorException']
+            else:
+                setout = 'ok'
+                state = S.ABSENT if want[0] == 'remove' else ('text', want[1])
+        v = S.expected_get(tag, prop, state, in_form=bool(d['ctx']))
+        if isinstance(v, tuple) and v[0] == 'ancestor-form':
+            r = ['anc', 1]
+        elif isinstance(v, tuple) and v[0] == 'tokens':
+            r = ['t'] + [enc(w) for w in v[1]]
+        else:
+            r = self.render(None, v)
+        return sx(setout, r, enc(S.html_name(prop)))
+
+    def spec_agreement(self):
+        """The Python restatement (c19_spec.py) and the Lean specification (AHP.Conv.Spec, the right-hand side of the
+        table obligations and of theorem C19b_meaning) agree on the name tables and on every cell of the quick tier."""
+        from ..core import run_driver, parse_sx, dec
+        try:
+            names = parse_sx(run_driver(self.stream, ['(names)'])[0])
+            lean_tags = {dec(row[0]): [dec(x) for x in row[1:]] for row in names[0]}
+            lean_common = [dec(x) for x in names[1]]
+            if lean_tags != S.TAG_PROPS or lean_common != S.COMMON_PROPS:
+                return 'name tables differ'
+            cells = [c.data for c in self.cases('quick', None) if c.data['prop'] in props_of(c.data['tag']) and c.data['via'] == 'ctor']
+            out = run_driver(self.stream, [self.encode(d, 'spec') for d in cells])
+            for d, o in zip(cells, out):
+                w = self.spec_render(d)
+                if o != w:
+                    return 'cell %r: lean %s python %s' % (d, o[:200], w[:200])
+        except Exception as e:
+            return 'could not be evaluated: %s: %s' % (type(e).__name__, e)
+        return None
+
     # ---- obligations discharged outside Lean -------------------------------------------------------
     def extra_obligations(self):
-        """Names the model treats as linked must not be shadowed by real attributes of AdvancedTag (the
-        `object.__getattribute__` short cut), except `className` which the model handles."""
+        """(1) python-spec = lean-spec.  (2) Names the model treats as linked must not be shadowed by real attributes of
+        AdvancedTag (the `object.__getattribute__` short cut), except `className` which the model handles."""
         from ..core import setup_impl_path
         setup_impl_path()
+        diff = self.spec_agreement()
+        obs = [('the Python restatement of the documented rules equals the Lean specification on every cell (%s)'
+                % (diff or 'agree'), diff is None)]
+        return obs + self._shadow_obligation()
+
+    def _shadow_obligation(self):
         import AdvancedHTMLParser as AHP
         names = set(S.COMMON_PROPS)
         for v in S.TAG_PROPS.values():
